@@ -100,7 +100,8 @@ def load_known(pid: str):
 
 def replay_in_fresh_process(pid: str, viol: dict, cfg: dict, scratch: str) -> str:
     """'isolated' | 'shard' | 'no'.  A violation is reported only if it reproduces in a fresh process."""
-    cin, cout = os.path.join(scratch, "replay_in.json"), os.path.join(scratch, "replay_out.json")
+    tag = hashlib.sha1(viol["sig"].encode()).hexdigest()[:10]
+    cin, cout = os.path.join(scratch, f"replay_in_{tag}.json"), os.path.join(scratch, f"replay_out_{tag}.json")
     dump(cin, {"case": viol["case"], "cfg": cfg})
     for attempt in range(2):
         if os.path.exists(cout):
@@ -116,7 +117,9 @@ def replay_in_fresh_process(pid: str, viol: dict, cfg: dict, scratch: str) -> st
         if attempt == 1:
             return "isolated"
     # needs the shard prefix?  re-run the whole shard (deterministic order) and look for the signature
-    res = run_shards(pid, [cfg], scratch, CORES)[0]
+    sub = os.path.join(scratch, f"reshard_{tag}")
+    os.makedirs(sub, exist_ok=True)
+    res = run_shards(pid, [dict(cfg, scratch=os.path.join(sub, "w"))], sub, CORES)[0]
     if res.get("ok") and any(v["sig"] == viol["sig"] for v in res.get("violations", [])):
         return "shard"
     return "no"
@@ -191,13 +194,26 @@ def run_check(pid: str, tier: str, seed: int, jobs: int) -> int:
         known = load_known(pid)
         rc = 0
         known_hits, reported = [], []
-        for sig in sorted(viols):
+        todo = []
+        for sig in sorted(viols, key=lambda s_: (viols[s_][0].get("rank", 0), s_)):
             v, cfg = viols[sig]
             if sig in known:
                 print(f"KNOWN-FINDING: property={pid} {known[sig].get('what', sig)} [{sig}] x{vcount[sig]}")
                 known_hits.append(sig)
-                continue
-            how = "finalize" if v.get("no_replay") else replay_in_fresh_process(pid, v, cfg, scratch)
+            else:
+                todo.append(sig)
+        # every unlisted violation is re-executed in a fresh process before it is reported (several at a time)
+        import concurrent.futures as cf
+
+        def _repro(sig):
+            v, cfg = viols[sig]
+            return "finalize" if v.get("no_replay") else replay_in_fresh_process(pid, v, cfg, scratch)
+
+        with cf.ThreadPoolExecutor(max_workers=max(1, min(8, jobs))) as ex:
+            hows = dict(zip(todo, ex.map(_repro, todo)))
+        for sig in todo:
+            v, cfg = viols[sig]
+            how = hows[sig]
             if how == "no":
                 print(f"HARNESS-ERROR property={pid} violation did not reproduce in a fresh process: {sig}: {v.get('msg','')[:500]}")
                 rc = max(rc, 2)
